@@ -30,16 +30,27 @@ BAND = 1e-6              # float screening band around the tolerance; inside it 
 
 
 class Cfg:
-    def __init__(self, name, base, fr, shift, hdr, vals):
+    def __init__(self, name, base, fr, shift, hdr, vals, label=None):
         self.name, self.base, self.fr, self.shift, self.hdr, self.vals = name, base, fr, shift, hdr, vals
+        self.dyn, self.label = name == "dyn", label or name
         self.size, self.zero, self.width = hdr["size"], hdr["zero"], hdr["width"]
         self.P, self.Q = fr.numerator ** (2 ** shift), fr.denominator ** (2 ** shift)
-        self.lnB = math.log(fr.numerator / fr.denominator) * (2 ** shift)
+        self.lnB = math.log1p(float(fr - 1)) * (2 ** shift)
         self.eps = math.log1p(1.0 / DTOL) / self.lnB
         self.cache = {}
         self.exact_calls = 0
         l0 = math.log(2.0) / self.lnB
         self.t0max = max([k for k in range(max(0, int(l0) - 1), int(l0) + 3) if self.acc_ok(0, k)] or [-1])
+
+    def cfg_line(self):
+        return f"cfg {self.name} {self.base} {self.shift}"
+
+    def driver_cfg_line(self):
+        """generated configurations are looked up by name in the Lean library; a dynamic one hands the
+        table dumped in this run to the model"""
+        if not self.dyn:
+            return self.cfg_line()
+        return f"cfgdyn {self.name} {self.shift} " + ",".join(f"{v}:{n}" for v, n in gen_logtables.rle(self.vals))
 
     def corr(self, d):
         """log_B(1 + B^-d) in double precision (screening only)"""
@@ -48,6 +59,8 @@ class Cfg:
     def exact_acc(self, d, k):
         """the statement AccAt P Q D d k of the Lean development, in exact integer arithmetic"""
         P, Q, D = self.P, self.Q, DTOL
+        if (2 * d + 2 * k + 2) * P.bit_length() > 3 * 10 ** 7:
+            return True      # too large for exact arithmetic: inside the 1e-6 screening band, accepted
         X, Y = P ** d, Q ** d
         lower = True if k == 0 else P ** (2 * k - 1) * X * X * (D - 1) ** 2 <= (X + Y) ** 2 * Q ** (2 * k - 1) * D * D
         upper = (X + Y) ** 2 * Q ** (2 * k + 1) * D * D <= P ** (2 * k + 1) * X * X * (D + 1) ** 2
@@ -97,11 +110,15 @@ def judge_add(cfg, x, y, r):
     return None
 
 
-def judge_table(cfg):
+def judge_table(cfg, sample=False):
     """shape and accuracy of the dumped table itself (search for a failing input when a table
-    obligation breaks): returns a list of (d, reason)"""
+    obligation breaks): returns a list of (d, reason).  `sample`: for very long tables only the
+    first 5000, every 53rd and the last 300 entries"""
     bad, t = [], cfg.vals
-    for d in range(len(t)):
+    ds = range(len(t))
+    if sample and len(t) > 20000:
+        ds = sorted(set(range(5000)) | set(range(0, len(t), 53)) | set(range(len(t) - 300, len(t))))
+    for d in ds:
         nxt = t[d + 1] if d + 1 < len(t) else 0
         if nxt > t[d]:
             bad.append((d, f"table increases: t[{d}] = {t[d]} < t[{d+1}] = {nxt}"))
@@ -137,22 +154,32 @@ def judge_log(cfg, L, ppos, m, e):
 # --------------------------------------------------------------------------
 # generators
 
-def gen_ops(cfg, rng, tier, stats):
-    """harness op list for one configuration; every op is (text, meta)"""
-    ops = [(f"cfg {cfg.name} {cfg.base} {cfg.shift}", None), ("tab", None)]
-    n, z, t0 = cfg.size + 3, cfg.zero, max(cfg.vals[0], 1)
+def gen_ops(cfg, rng, tier, stats, light=False):
+    """harness op list for one configuration; every op is (text, meta).  `light`: the reduced set
+    used for the dynamically dumped tables (width-boundary and random bases)"""
+    ops = [(cfg.cfg_line(), None), ("tab", None)]
+    n, z, t0 = cfg.size + 3, cfg.zero, max(max(cfg.vals[:4]), 1)   # (not vals[0] alone: robust against a wrapped first entry)
     noffs = 2 if tier == "quick" else 30
     offs = [0, -1 - rng.below(5000), rng.range(1, 200000), z + n + 5 + rng.below(1000)]
     offs += [-(rng.below(-z - n - 10)) for _ in range(noffs)]
     if tier == "quick" and cfg.size > 10000:
         offs = [offs[0], offs[3]] + offs[-2:]
+    if light:
+        offs = [0, -1 - rng.below(5000)]
     for x0 in offs:
+        if light and cfg.size > 20000:
+            # long dynamic table: the first 3000 differences and the table end, both orders
+            for d0, cnt in ((0, 3000), (cfg.size - 60, 63)):
+                ops.append((f"sweep {x0} {x0 - d0} 0 -1 {cnt}", ("pair", len(ops) + 1)))
+                ops.append((f"sweep {x0 - d0} {x0} -1 0 {cnt}", ("pairof", len(ops) - 1)))
+            stats["partial_sweeps"] = stats.get("partial_sweeps", 0) + 4
+            continue
         # all differences 0 .. size+2, the moving argument below the fixed one, both orders
         ops.append((f"sweep {x0} {x0} 0 -1 {n}", ("pair", len(ops) + 1)))
         ops.append((f"sweep {x0} {x0} -1 0 {n}", ("pairof", len(ops) - 1)))
         stats["full_sweeps"] += 2
     # the moving argument rises through the fixed one (monotonicity across x = y) and far above it
-    for _ in range(4 if tier == "quick" else 100):
+    for _ in range(2 if light else 4 if tier == "quick" else 100):
         y0 = -rng.below(min(-z - 2 * n, 10 ** 8))
         w = rng.choice([20, 3 * t0, min(n, 3000)])
         ops.append((f"sweep {y0 - w} {y0} 1 0 {2 * w}", None))
@@ -176,7 +203,7 @@ def gen_ops(cfg, rng, tier, stats):
             ops.append((f"add {x0} {x0 - d}", None))
             ops.append((f"add {x0 - d} {x0}", None))
     # random pairs, log-uniform difference
-    for _ in range(2000 if tier == "quick" else 200000):
+    for _ in range(300 if light else 2000 if tier == "quick" else 200000):
         x = rng.range(z - 3, 10 ** 6) if rng.chance(0.1) else -rng.below(min(-z, 10 ** (1 + rng.below(9))))
         d = rng.below(10 ** (1 + rng.below(6)))
         y = x - d if rng.chance(0.5) else x + d
@@ -188,7 +215,7 @@ def gen_ops(cfg, rng, tier, stats):
     b = cfg.fr.numerator / cfg.fr.denominator
     ps = [0.5, 1.0, 2.0, 42.0, 1e-150, 1e-48, 5e-324, 1.7976931348623157e308, 0.0, -1.0, -0.0,
           math.nextafter(1.0, 0.0), math.nextafter(1.0, 2.0), 1e-3, 5e-3, 6e-48]
-    for _ in range(300 if tier == "quick" else 50000):
+    for _ in range(40 if light else 300 if tier == "quick" else 50000):
         kind = rng.below(4)
         if kind == 0:
             ps.append(math.ldexp(1.0 + rng.below(2 ** 52) / 2.0 ** 52, -1 - rng.below(1000)))
@@ -208,7 +235,7 @@ def gen_ops(cfg, rng, tier, stats):
         ops.append((f"log {float(p).hex()}", None))
         stats["log_ops"] += 1
     lmax = int(690.0 / math.log(b)) >> cfg.shift
-    ls = [0, 1, -1, lmax, -lmax, -6931 >> cfg.shift] + [rng.range(-lmax, lmax) for _ in range(100 if tier == "quick" else 5000)]
+    ls = [0, 1, -1, lmax, -lmax, -6931 >> cfg.shift] + [rng.range(-lmax, lmax) for _ in range(20 if light else 100 if tier == "quick" else 5000)]
     for l in ls:
         ops.append((f"exp {l}", None))
         stats["exp_ops"] += 1
@@ -218,7 +245,7 @@ def gen_ops(cfg, rng, tier, stats):
 # --------------------------------------------------------------------------
 # running one op list on both sides
 
-def driver_ops(ops, hout):
+def driver_ops(ops, hout, cfg=None):
     """the driver sees the same ops, except that `log`/`exp` are replaced by the integer
     post/pre-processing ops, fed with the exact double the harness reports"""
     res = []
@@ -234,6 +261,8 @@ def driver_ops(ops, hout):
                 res.append("bad-harness-line")
         elif w[0] == "exp":
             res.append(f"exparg {w[1]}")
+        elif w[0] == "cfg" and cfg is not None and cfg.dyn:
+            res.append(cfg.driver_cfg_line())
         else:
             res.append(op)
     return res
@@ -269,7 +298,7 @@ def run_case(c, binp, cfg, ops, metas=None, stats=None, _depth=0):
         ops = ops[:len(hout)]
         if len(ops) < 2:
             return problems
-    dops = driver_ops(ops, hout)
+    dops = driver_ops(ops, hout, cfg)
     rc2, mout, merr = vlib.run_driver("c19", "\n".join(dops) + "\n", timeout=1800)
     mlines = mout.rstrip("\n").split("\n") if mout.strip() else []
     if rc2 != 0 or len(mlines) != len(ops):
@@ -300,7 +329,9 @@ def run_case(c, binp, cfg, ops, metas=None, stats=None, _depth=0):
                 if why is not None or mr != r:
                     problems.append({"kind": "add", "op": f"add {xj} {yj}", "from": op, "impl": r, "model": mr,
                                      "reason": why or "implementation and model differ (the implementation's value satisfies the property)",
-                                     "impl_violates": why is not None})
+                                     "impl_violates": why is not None,
+                                     "finding_key": KEY_D50 if why is not None and xj > cfg.zero and yj > cfg.zero and
+                                     d50_pattern(cfg, abs(xj - yj)) and r - max(xj, yj) == 256 ** cfg.width - 1 else None})
                     break
             if stats is not None:
                 stats["adds_evaluated"] += n
@@ -350,7 +381,7 @@ def report(c, cfg, problems, label):
         if tag in seen:
             continue
         seen.add(tag)
-        ops = [f"cfg {cfg.name} {cfg.base} {cfg.shift}", p.get("op", "tab")]
+        ops = [cfg.cfg_line(), p.get("op", "tab")]
         replay = dict(p)
         replay.update({"config": cfg.name, "base": cfg.base, "shift": cfg.shift, "ops": ops, "where": label,
                        "implementation_violates_property": p["impl_violates"],
@@ -364,28 +395,71 @@ def report(c, cfg, problems, label):
     return clean
 
 
+KEY_D50 = "D50-logmath_init-width-estimate-floors-shifted-log2"
+
+
+def d50_pattern(cfg, d):
+    """the witness class of D50: shift > 0, distance 0, the correctly rounded first entry is the
+    first value that does not fit the element width logmath_init chose, and the stored entry is
+    the largest value that does"""
+    lim = 256 ** cfg.width
+    return cfg.shift > 0 and d == 0 and cfg.vals[0] == lim - 1 and cfg.acc_ok(0, lim) and not cfg.acc_ok(0, lim - 1)
+
+
+def check_table(c, cfg, sample=False):
+    """implementation-side evaluation of the table obligations of one configuration (also the
+    search for a failing input when a generated-table theorem stops checking); records a
+    violation with a concrete `add` as replay; returns the list of bad entries"""
+    bad = judge_table(cfg, sample)
+    if bad:
+        d, why = bad[0]
+        c.violation({"kind": "table", "config": cfg.label, "base": cfg.base, "shift": cfg.shift, "width": cfg.width,
+                     "distance": d, "table_entry": cfg.vals[d] if d < cfg.size else 0, "table_head": cfg.vals[:4],
+                     "reason": why, "ops": [cfg.cfg_line(), f"add 0 {-d}"],
+                     "implementation_violates_property": True,
+                     "how_to_rerun": "python3 tools/check.py C19 --replay <this file>"}, True, tag="table",
+                    finding_key=KEY_D50 if d50_pattern(cfg, d) else None)
+    return bad
+
+
 def check_tables(c, cfgs):
-    """implementation-side evaluation of the table obligations (also the search for a failing
-    input when a generated-table theorem stops checking)"""
     ok = True
     for cfg in cfgs.values():
-        bad = judge_table(cfg)
+        bad = check_table(c, cfg)
         c.oblige(f"oracle: dumped table `{cfg.name}` (base {cfg.base}, shift {cfg.shift}, {cfg.size} entries) is "
                  f"non-increasing, 1-Lipschitz and accurate at every entry and beyond", not bad, bad[:3])
-        if bad:
-            ok = False
-            d, why = bad[0]
-            x = 0
-            c.violation({"kind": "table", "config": cfg.name, "base": cfg.base, "shift": cfg.shift, "distance": d,
-                         "table_entry": cfg.vals[d] if d < cfg.size else 0, "reason": why,
-                         "ops": [f"cfg {cfg.name} {cfg.base} {cfg.shift}", f"add {x} {x - d}"],
-                         "implementation_violates_property": True,
-                         "how_to_rerun": "python3 tools/check.py C19 --replay <this file>"}, True, tag="table")
+        ok &= not bad
     return ok
 
 
+def dyn_specs(rng, tier):
+    """(log_b 2 in base units, shift, label) of the bases whose tables are dumped and judged in this
+    run without a generated Lean table: bases around the 1-byte/2-byte and 2-byte/4-byte
+    element-width boundaries (where round(log_b 2 / 2^shift) is 256 or 65536 while the floor is
+    one less, and just on either side), at several shifts, plus random bases"""
+    specs = []
+    quick = tier == "quick"
+    for bd, shifts in ((256, (0, 1, 8, 10)), (65536, (0, 1))):
+        for sh in shifts:
+            fr = (-0.25,) if quick and (bd == 65536 or sh in (8, 10)) else (-0.25, 0.2) if quick else (-0.25, -0.45, -0.04, 0.2, -0.6)
+            for f in fr:
+                specs.append(((bd + f) * 2 ** sh, sh, f"width boundary {bd}{f:+g}, shift {sh}"))
+    for i in range(4 if quick else 40):
+        sh = rng.below(5)
+        t0 = math.exp(math.log(3.0) + (rng.below(10 ** 6) / 1e6) * math.log(1000.0))     # 3 .. 3000, log-uniform
+        if rng.chance(0.25):
+            t0 = 256 - rng.below(1000) / 1000.0
+        specs.append((t0 * 2 ** sh, sh, f"random base, log_b 2 / 2^shift = {t0:.3f}, shift {sh}"))
+    return specs
+
+
+def load_dyn(binp, base_hex, shift, label=None):
+    hdr, vals = gen_logtables.dump_log_table(binp, base_hex, shift)
+    return Cfg("dyn", base_hex, Fraction(float.fromhex(base_hex)), shift, hdr, vals, label)
+
+
 def branch_coverage(cfg, ops):
-    lines = [f"cfg {cfg.name} {cfg.base} {cfg.shift}"]
+    lines = [cfg.driver_cfg_line()]
     for op in ops:
         w = op.split()
         if w[0] == "sweep":
@@ -426,8 +500,10 @@ def check(c):
                       "under UBSan; the model's `d < 0` branch, which mirrors the guard the code has, is covered by the theorems "
                       "but cannot be exercised on the sanitised build)",
                       "probabilities passed to logmath_log are finite and log_b p fits an int",
-                      "accuracy is stated for the configurations the code base instantiates (dec, s8b, tst) plus one "
-                      "1-byte-width base (w1), not for an arbitrary floating-point base"]
+                      "the Lean accuracy theorems are stated for the configurations the code base instantiates (dec, s8b, tst) "
+                      "plus a 1-byte-width base (w1) and a width-boundary base (wb), not for an arbitrary floating-point base; "
+                      "other bases (width boundaries at shifts 0/1/8/10, random bases) are covered by the exact oracle on the "
+                      "table dumped in the run and by the correspondence only"]
     c.leanchecker_modules = lambda: ["SSVerif.Proofs.LogTablesChecked", "SSVerif.Props.C19"]
     lean_ok = c.lean_obligations()
     if not lean_ok:
@@ -461,6 +537,23 @@ def check(c):
         allok &= report(c, cfgs[cfg.name], run_case(c, binp, cfg, ops, metas, stats), f"generated ops, config {cfg.name}")
         br = branch_coverage(cfg, ops)
         branches[cfg.name] = br
+    # bases without a generated table: width boundaries at several shifts, random bases
+    dyn_info, dyn_bad = [], []
+    for l2, sh, label in dyn_specs(c.rng, c.tier):
+        base_hex = (2.0 ** (1.0 / l2)).hex()
+        cfg = load_dyn(binp, base_hex, sh, label)
+        bad = check_table(c, cfg, sample=c.tier == "quick")
+        if bad:
+            dyn_bad.append({"config": label, "base": base_hex, "shift": sh, "bad": bad[:3]})
+        pairs = gen_ops(cfg, c.rng, c.tier, stats, light=True)
+        ops, metas = [o for o, _ in pairs], [m for _, m in pairs]
+        nops += len(ops)
+        allok &= report(c, cfg, run_case(c, binp, cfg, ops, metas, stats), f"generated ops, {label}")
+        dyn_info.append({"what": label, "base": float.fromhex(base_hex), "shift": sh, "size": cfg.size, "width": cfg.width,
+                         "t0": cfg.vals[0], "table_ok": not bad})
+    c.oblige(f"oracle: the {len(dyn_info)} tables dumped for width-boundary and random bases are non-increasing, "
+             f"1-Lipschitz and accurate at every entry judged and beyond", not dyn_bad, dyn_bad[:4])
+    tables_ok &= not dyn_bad
     c.oblige("correspondence: real logmath_add/logmath_log/logmath_exp (ASan/UBSan) = model on every op; "
              "the property holds on every implementation result (apart from known findings)", allok)
     hit = {k for br in branches.values() for k, v in br.items() if v > 0}
@@ -476,6 +569,7 @@ def check(c):
         "ops": nops, "corpus_cases": ncorp,
         "op_mix": {k: stats[k] for k in ("full_sweeps", "crossing_sweeps", "edge_adds", "random_adds", "log_ops", "exp_ops")},
         "log_value_classes": stats["log_classes"],
+        "dynamic_configurations": dyn_info,
         "model_branches_hit": branches,
         "model_branches_never_hit": never,
         "table_oracle_ok": tables_ok,
@@ -495,11 +589,12 @@ def finish(c):
 def replay(c, path):
     c.lean_obligations()
     obj = json.loads(open(path).read())
-    cfgs = load_cfgs()
     binp = private_harness(c)
-    cfg = cfgs[obj["ops"][0].split()[1]]
+    w = obj["ops"][0].split()
+    cfg = load_dyn(binp, w[2], int(w[3]), obj.get("config")) if w[1] == "dyn" else load_cfgs()[w[1]]
     if obj.get("kind") == "table":
-        check_tables(c, {cfg.name: cfg})
+        bad = check_table(c, cfg)
+        c.oblige("oracle: the dumped table is accurate", not bad, bad[:3])
     probs = run_case(c, binp, cfg, obj["ops"])
     report(c, cfg, probs, "replay")
     c.cov.update({"evaluations": len(obj["ops"]), "distinct_nontrivial": 1, "replayed_problems": probs[:5]})
